@@ -1015,3 +1015,425 @@ Proof.
   - apply Hcons; auto.
 Qed.
 End ExecRel.
+
+(** * Steps of the scheduler *)
+Section Sched.
+Variable sb : bool.
+
+Lemma nth_error_Forall : forall A (P : A -> Prop) l n x, Forall P l -> nth_error l n = Some x -> P x.
+Proof. intros A P l n x H E. eapply Forall_forall; eauto. eapply nth_error_In; eauto. Qed.
+
+Lemma poll_task_ok : forall r t c, r <> 0 -> good sb (c_w c) -> post sb r false c (poll_task sb r t c).
+Proof.
+  intros r t c Hr G. unfold poll_task.
+  destruct (nth_error (q_tasks (get_req r (c_w c))) t) as [tk|] eqn:E; [|now apply post_refl].
+  assert (Hs : scoped_list r false (t_prog tk) = true).
+  { exact (nth_error_Forall _ (fun t0 => scoped_list r false (t_prog t0) = true) _ t tk (ok_tasks _ _ _ (G r Hr)) E). }
+  set (c1 := match t_sb tk with
+             | Some a => if sb then with_amb c (mkAmb (a_owner (c_amb c)) (a_obs (c_amb c)) a) else c
+             | None => c end).
+  assert (P1 : post sb r false c c1).
+  { apply post_amb; auto; try discriminate; unfold c1; destruct (t_sb tk); destruct sb; reflexivity. }
+  destruct (proj2 (exec_ok_all sb r Hr) (t_prog tk) false c1 (p_good _ _ _ _ _ P1) Hs) as [P2 K2]; [discriminate|].
+  destruct (exec_list sb r (t_prog tk) c1) as [c2 rest] eqn:E2. cbn [fst snd] in *.
+  eapply post_trans; [exact P1 | eapply post_trans; [exact P2|]].
+  apply post_upd_me; auto; [apply P2|]. apply ok_set_task; [apply P2; auto | exact K2].
+Qed.
+
+Lemma start_ok : forall r c, good sb (c_w c) -> post sb r false c (start sb r c).
+Proof.
+  intros r c G. unfold start.
+  destruct (q_started (get_req r (c_w c)) || Nat.eqb r 0) eqn:Eg; [now apply post_refl|].
+  apply orb_false_elim in Eg as [_ Er]. apply Nat.eqb_neq in Er.
+  constructor; cbn [c_w c_amb a_obs].
+  - intros r' Hr'. destruct (Nat.eq_dec r' r) as [->|Hne].
+    + rewrite get_set_same. pose proof (G r Er) as [A B C D E].
+      constructor; cbn.
+      * exact A.
+      * constructor; [cbn; exact A | constructor].
+      * constructor.
+      * intros s h [].
+      * intros o h [<-|[]] [].
+    + rewrite get_set_other by auto. now apply G.
+  - intros r' Hr'; split; [now rewrite get_set_other by auto | reflexivity].
+  - reflexivity.
+  - discriminate.
+Qed.
+
+Lemma step_ok : forall e c, sev_req e <> 0 -> good sb (c_w c) -> post sb (sev_req e) false c (step sb e c).
+Proof.
+  intros [r|r g|r t] c Hr G; cbn [step sev_req] in *.
+  - now apply start_ok.
+  - destruct (q_started (get_req r (c_w c))); [|now apply post_refl].
+    apply post_upd_me; auto. apply ok_add_fired. now apply G.
+  - now apply poll_task_ok.
+Qed.
+
+(** the orphan pseudo-request is never started and has no task: events addressed to it do nothing *)
+Definition inv (c : cfg) : Prop := good sb (c_w c) /\ get_req 0 (c_w c) = orphan_req.
+
+Lemma step_zero : forall e c, sev_req e = 0 -> inv c -> step sb e c = c.
+Proof.
+  intros [r|r g|r t] c Hr [_ H0]; cbn [step sev_req] in *; subst r.
+  - unfold start. now rewrite orb_true_r.
+  - now rewrite H0.
+  - unfold poll_task. rewrite H0. cbn. now destruct t.
+Qed.
+
+Lemma step_inv : forall e c, inv c -> inv (step sb e c).
+Proof.
+  intros e c Hi. destruct (Nat.eq_dec (sev_req e) 0) as [E|E].
+  - now rewrite step_zero.
+  - destruct Hi as [G H0]. destruct (step_ok e c E G) as [G' F _ _]. split; [exact G'|].
+    destruct (F 0 (fun H => E (eq_sym H))) as [A _]. now rewrite <- A.
+Qed.
+
+Lemma run_inv : forall s c, inv c -> inv (run_sched sb s c).
+Proof. induction s as [|e s IH]; intros c H; cbn; [exact H | apply IH, step_inv, H]. Qed.
+
+(** ** two runs *)
+Lemma step_rel : forall e c1 c2, sev_req e <> 0 -> good sb (c_w c1) -> good sb (c_w c2) ->
+  rel sb (sev_req e) false c1 c2 -> rel sb (sev_req e) false (step sb e c1) (step sb e c2).
+Proof.
+  intros e c1 c2 Hr G1 G2 R.
+  eapply rel_post; [exact R | now apply step_ok | now apply step_ok |].
+  pose proof R as [[A B] [O _]].
+  destruct e as [r|r g|r t]; cbn [step sev_req] in *.
+  - unfold start. rewrite <- A.
+    destruct (q_started (get_req r (c_w c1)) || Nat.eqb r 0); [split; assumption|].
+    cbn [c_w]. split; [now rewrite !get_set_same | exact B].
+  - rewrite <- A. destruct (q_started (get_req r (c_w c1))); [|split; assumption].
+    apply (rel_upd sb r false c1 c2 _ R).
+  - unfold poll_task. rewrite <- A.
+    destruct (nth_error (q_tasks (get_req r (c_w c1))) t) as [tk|] eqn:E; [|split; assumption].
+    assert (Hs : scoped_list r false (t_prog tk) = true).
+    { exact (nth_error_Forall _ (fun t0 => scoped_list r false (t_prog t0) = true) _ t tk (ok_tasks _ _ _ (G1 r Hr)) E). }
+    set (d1 := match t_sb tk with
+               | Some a => if sb then with_amb c1 (mkAmb (a_owner (c_amb c1)) (a_obs (c_amb c1)) a) else c1
+               | None => c1 end).
+    set (d2 := match t_sb tk with
+               | Some a => if sb then with_amb c2 (mkAmb (a_owner (c_amb c2)) (a_obs (c_amb c2)) a) else c2
+               | None => c2 end).
+    assert (W1 : c_w d1 = c_w c1) by (unfold d1; destruct (t_sb tk); destruct sb; reflexivity).
+    assert (W2 : c_w d2 = c_w c2) by (unfold d2; destruct (t_sb tk); destruct sb; reflexivity).
+    assert (Rd : rel sb r false d1 d2).
+    { split; [rewrite W1, W2; split; assumption | split; [|discriminate]].
+      unfold d1, d2; destruct (t_sb tk); destruct sb; cbn; exact O. }
+    assert (Gd1 : good sb (c_w d1)) by now rewrite W1.
+    assert (Gd2 : good sb (c_w d2)) by now rewrite W2.
+    destruct (proj2 (exec_rel_all sb r Hr) (t_prog tk) false d1 d2 Gd1 Gd2 Hs Rd) as [K Rr].
+    destruct (exec_list sb r (t_prog tk) d1) as [e1 rest1]. destruct (exec_list sb r (t_prog tk) d2) as [e2 rest2].
+    cbn [fst snd] in *. subst rest2.
+    apply (rel_upd sb r false e1 e2 _ Rr).
+Qed.
+
+(** the schedule restricted to the events of request r *)
+Definition only (r : rid) (s : list sev) : list sev := filter (fun e => Nat.eqb (sev_req e) r) s.
+
+Lemma run_rel : forall r s c1 c2, r <> 0 -> inv c1 -> inv c2 -> rel sb r false c1 c2 ->
+  rel sb r false (run_sched sb s c1) (run_sched sb (only r s) c2).
+Proof.
+  intros r s; induction s as [|e s IH]; intros c1 c2 Hr I1 I2 R; cbn [run_sched fold_left only filter]; [exact R|].
+  destruct (Nat.eqb (sev_req e) r) eqn:Ee.
+  - apply Nat.eqb_eq in Ee. cbn [fold_left]. apply IH; auto using step_inv.
+    subst r. apply step_rel; auto; [apply I1 | apply I2].
+  - apply Nat.eqb_neq in Ee. apply IH; auto using step_inv.
+    destruct (Nat.eq_dec (sev_req e) 0) as [E0|E0]; [now rewrite step_zero|].
+    destruct (step_ok e c1 E0 (proj1 I1)) as [_ F Ob _].
+    destruct R as [S [O _]]. split; [|split; [congruence | discriminate]].
+    eapply sim_trans; [apply sim_sym, F; auto | exact S].
+Qed.
+End Sched.
+
+(** * The theorems *)
+Definition all_scoped (progs : list (list instr * nat)) : Prop :=
+  forall k pg, nth_error progs k = Some pg -> scoped_list (S k) false (fst pg) = true.
+
+Lemma init_inv : forall sb progs, all_scoped progs -> inv sb (init_world progs).
+Proof.
+  intros sb progs H; split; [|reflexivity].
+  intros r Hr. destruct r as [|k]; [contradiction|]. unfold init_world, get_req; cbn.
+  destruct (nth_error progs k) as [pg|] eqn:E.
+  - constructor; cbn; auto; try (now apply (H k pg E)); try (intros ? ? []).
+  - constructor; cbn; auto; try (intros ? ? []).
+Qed.
+
+Lemma rel_refl : forall sb r c, rel sb r false c c.
+Proof. intros; split; [apply sim_refl | split; [reflexivity | discriminate]]. Qed.
+
+(** every ambient read made by request r's code sees an owner of r — or none, once r's own root
+    has been dropped — whatever else was polled in between *)
+Theorem scoped_isolation : forall sb progs s r e,
+  all_scoped progs -> r <> 0 ->
+  In e (q_log (get_req r (c_w (run_sched sb s (init_world progs))))) ->
+  ev_owner e = r \/ ev_owner e = 0.
+Proof.
+  intros sb progs s r e H Hr Hin.
+  destruct (run_inv sb s _ (init_inv sb progs H)) as [G _].
+  exact (proj1 (Forall_forall _ _) (ok_log _ _ _ (G r Hr)) e Hin).
+Qed.
+
+(** projection of the interleaved run on request r = the run of r alone: r's log (every
+    context value and arena item its probes saw), owners, contexts, handles, tasks, cleanup log
+    and arena entries are those of the schedule that keeps r's events only *)
+Theorem solo_equivalence : forall sb progs s r,
+  all_scoped progs -> r <> 0 ->
+  sim sb r (c_w (run_sched sb s (init_world progs))) (c_w (run_sched sb (only r s) (init_world progs))).
+Proof.
+  intros sb progs s r H Hr.
+  apply (run_rel sb r s _ _ Hr (init_inv sb progs H) (init_inv sb progs H) (rel_refl sb r _)).
+Qed.
+
+(** in the solo run the other requests do not exist at all: they are still as initialised *)
+Lemma run_frame : forall sb r s c, inv sb c -> Forall (fun e => sev_req e = r) s ->
+  forall r', r' <> r -> sim sb r' (c_w c) (c_w (run_sched sb s c)).
+Proof.
+  intros sb r s; induction s as [|e s IH]; intros c I F r' Hr'; cbn; [apply sim_refl|].
+  inversion F as [|? ? He Fs]; subst.
+  eapply sim_trans; [|apply IH; auto using step_inv].
+  destruct (Nat.eq_dec (sev_req e) 0) as [E0|E0]; [rewrite step_zero; auto; apply sim_refl|].
+  destruct (step_ok sb e c E0 (proj1 I)) as [_ Fr _ _]. apply Fr. auto.
+Qed.
+
+Lemma only_all : forall r s, Forall (fun e => sev_req e = r) (only r s).
+Proof.
+  intros r s; unfold only; apply Forall_forall; intros e He.
+  apply filter_In in He as [_ He]. now apply Nat.eqb_eq.
+Qed.
+
+Theorem solo_is_alone : forall sb progs s r r',
+  all_scoped progs -> r' <> r ->
+  get_req r' (c_w (run_sched sb (only r s) (init_world progs))) = get_req r' (c_w (init_world progs)).
+Proof.
+  intros sb progs s r r' H Hr.
+  destruct (run_frame sb r (only r s) _ (init_inv sb progs H) (only_all r s) r' Hr) as [A _]. now rewrite A.
+Qed.
+
+(** dropping the root owner of r disposes nothing of r' <> r, in any reachable state *)
+Theorem drop_frame : forall sb progs s r r',
+  all_scoped progs -> r <> 0 -> r' <> r ->
+  let c := run_sched sb s (init_world progs) in
+  sim sb r' (c_w c) (c_w (drop_req sb r c)).
+Proof.
+  intros sb progs s r r' H Hr Hr' c.
+  destruct (run_inv sb s _ (init_inv sb progs H)) as [G _].
+  exact (p_frame _ _ _ _ _ (drop_ok sb r Hr c G) r' Hr').
+Qed.
+
+(** ** the discipline is necessary: a bare task reads another request's context *)
+Definition bare_progs : list (list instr * nat) :=
+  [([IWith (1, 0) [IAct (AProvide 0 101); ISpawn WBare [IAwait 0; IAct (AProbe 7 1 None)]]], 1);
+   ([IWith (2, 0) [IAct (AProvide 0 102)]], 0)].
+Definition bare_sched : list sev := [SStart 1; SPoll 1 0; SStart 2; SPoll 2 0; SFire 1 0; SPoll 1 1].
+
+Lemma bare_not_scoped : ~ all_scoped bare_progs.
+Proof. intro H. specialize (H 0 _ eq_refl). cbn in H. discriminate. Qed.
+
+Lemma bare_leaks : forall sb,
+  In (7, 1, 2, 102%Z, (-1)%Z, (-9)%Z)
+     (q_log (get_req 1 (c_w (run_sched sb bare_sched (init_world bare_progs))))).
+Proof. intros [|]; vm_compute; auto. Qed.
+
+(** a task polled without its wrapper observes the owner and the context value of request 2
+    from inside request 1 (global and sandboxed arenas alike) *)
+Theorem unscoped_counterexample : forall sb, exists progs s e,
+  ~ all_scoped progs /\
+  In e (q_log (get_req 1 (c_w (run_sched sb s (init_world progs))))) /\
+  ev_owner e = 2 /\ e = (7, 1, 2, 102%Z, (-1)%Z, (-9)%Z).
+Proof.
+  intro sb. exists bare_progs, bare_sched, (7, 1, 2, 102%Z, (-1)%Z, (-9)%Z).
+  split; [exact bare_not_scoped | split; [apply bare_leaks | split; reflexivity]].
+Qed.
+
+(** ... while the same task behind its wrapper does not (hypotheses of the theorems satisfiable
+    by a program with a real interleaving) *)
+Definition wrapped_progs : list (list instr * nat) :=
+  [([IWith (1, 0) [IAct (AProvide 0 101); ISpawn WCapture [IAwait 0; IAct (AProbe 7 1 None)]]], 1);
+   ([IWith (2, 0) [IAct (AProvide 0 102)]], 0)].
+Example wrapped_scoped : all_scoped wrapped_progs.
+Proof. intros [|[|k]] pg E; cbn in E; [inversion E; subst; reflexivity | inversion E; subst; reflexivity | destruct k; discriminate]. Qed.
+Example wrapped_sees_own : forall sb,
+  q_log (get_req 1 (c_w (run_sched sb bare_sched (init_world wrapped_progs))))
+  = [(7, 1, 1, 101%Z, (-1)%Z, (-9)%Z)].
+Proof. intros [|]; vm_compute; reflexivity. Qed.
+
+(** * The programs of the harness grammar follow the discipline *)
+Section ViewInd.
+  Variable P : view -> Prop.
+  Hypothesis Htext : P VText.
+  Hypothesis Hleaf : forall p, P (VLeaf p).
+  Hypothesis Hdyn : forall p, P (VDyn p).
+  Hypothesis Hel : forall c, P c -> P (VEl c).
+  Hypothesis Hseq : forall cs, Forall P cs -> P (VSeq cs).
+  Hypothesis Hprov : forall v c, P c -> P (VProvide v c).
+  Hypothesis Hsusp : forall g p c, P c -> P (VSuspend g p c).
+  Hypothesis Hsuspense : forall fb c, P fb -> P c -> P (VSuspense fb c).
+  Hypothesis Hres : forall k g p1 p2 p3 c, P c -> P (VResource k g p1 p2 p3 c).
+  Hypothesis Hclean : forall id c, P c -> P (VCleanup id c).
+  Hypothesis Halloc : forall s c, P c -> P (VAlloc s c).
+  Hypothesis Hitem : forall p s, P (VItem p s).
+  Fixpoint view_ind2 (v : view) : P v :=
+    match v with
+    | VText => Htext
+    | VLeaf p => Hleaf p
+    | VDyn p => Hdyn p
+    | VEl c => Hel c (view_ind2 c)
+    | VSeq cs => Hseq cs ((fix go (l : list view) : Forall P l :=
+                             match l with [] => Forall_nil P | x :: t => Forall_cons x (view_ind2 x) (go t) end) cs)
+    | VProvide v c => Hprov v c (view_ind2 c)
+    | VSuspend g p c => Hsusp g p c (view_ind2 c)
+    | VSuspense fb c => Hsuspense fb c (view_ind2 fb) (view_ind2 c)
+    | VResource k g p1 p2 p3 c => Hres k g p1 p2 p3 c (view_ind2 c)
+    | VCleanup id c => Hclean id c (view_ind2 c)
+    | VAlloc s c => Halloc s c (view_ind2 c)
+    | VItem p s => Hitem p s
+    end.
+End ViewInd.
+
+Lemma scoped_list_app : forall me ins a b,
+  scoped_list me ins (a ++ b) = scoped_list me ins a && scoped_list me ins b.
+Proof.
+  intros me ins a b; induction a as [|i a IH]; cbn [app scoped_list]; [reflexivity|].
+  now rewrite IH, andb_assoc.
+Qed.
+
+Lemma compile_scoped : forall r v, scoped_list r true (compile r v) = true.
+Proof.
+  intros r. apply view_ind2; intros; cbn [compile].
+  - reflexivity.
+  - reflexivity.
+  - reflexivity.
+  - assumption.
+  - induction H as [|x l Hx Hl IH]; cbn [flat_map]; [reflexivity|]. now rewrite scoped_list_app, Hx, IH.
+  - cbn [scoped_list]. rewrite scoped_IChild. cbn [scoped_list scoped andb]. now rewrite H.
+  - cbn [scoped_list]. rewrite scoped_IObs. cbn [scoped_list]. rewrite scoped_IScoped.
+    cbn [scoped_list scoped andb]. now rewrite H.
+  - cbn [scoped_list]. rewrite scoped_IChild, scoped_list_app, H, H0. reflexivity.
+  - destruct k; cbn [scoped_list].
+    + rewrite scoped_IChild, scoped_IObs. cbn [scoped_list]. rewrite scoped_ISpawn, scoped_IScoped.
+      cbn [scoped_list scoped andb]. now rewrite H.
+    + rewrite scoped_ISpawn, scoped_IObs. cbn [scoped_list]. rewrite scoped_IScoped.
+      cbn [scoped_list scoped andb]. now rewrite H.
+  - cbn [scoped_list scoped andb]. assumption.
+  - cbn [scoped_list scoped andb]. assumption.
+  - reflexivity.
+Qed.
+
+Lemma main_prog_scoped : forall r v, scoped_list r false (main_prog r v) = true.
+Proof.
+  intros r v. unfold main_prog. cbn [scoped_list]. rewrite scoped_IWith. cbn [fst scoped_list scoped negb andb].
+  rewrite Nat.eqb_refl, scoped_list_app, compile_scoped. cbn [scoped_list andb].
+  rewrite scoped_IObs. cbn [scoped_list]. rewrite scoped_IScoped. reflexivity.
+Qed.
+
+Lemma nth_mapi_from : forall A B (f : nat -> A -> B) l i k y,
+  nth_error (mapi_from i f l) k = Some y -> exists x, nth_error l k = Some x /\ y = f (i + k) x.
+Proof.
+  intros A B f l; induction l as [|x l IH]; intros i k y H; destruct k; cbn in H; try discriminate.
+  - inversion H; subst. exists x; split; [reflexivity | now rewrite Nat.add_0_r].
+  - apply IH in H as [x' [E ->]]. exists x'; split; [exact E | f_equal; lia].
+Qed.
+
+(** the hypothesis of the theorems holds for every case the harness can be given *)
+Theorem harness_progs_scoped : forall views, all_scoped (harness_progs views).
+Proof.
+  intros views k pg E. unfold harness_progs in E.
+  apply nth_mapi_from in E as [v [_ ->]]. cbn [fst]. apply main_prog_scoped.
+Qed.
+
+(** * The coarse actions executed by [run_C20] are schedules *)
+Lemma run_sched_app : forall sb s1 s2 c, run_sched sb (s1 ++ s2) c = run_sched sb s2 (run_sched sb s1 c).
+Proof. intros; unfold run_sched; apply fold_left_app. Qed.
+
+Lemma poll_range_sched : forall sb r n from c,
+  poll_range sb r n from c = run_sched sb (map (SPoll r) (seq from n)) c.
+Proof. intros sb r n; induction n as [|n IH]; intros from c; cbn; [reflexivity | apply IH]. Qed.
+
+Lemma Forall_map_req : forall (f : nat -> sev) r l, (forall x, sev_req (f x) = r) ->
+  Forall (fun e => sev_req e = r) (map f l).
+Proof. intros f r l H; apply Forall_forall; intros e He. apply in_map_iff in He as [x [<- _]]. apply H. Qed.
+
+Lemma run_req_sched : forall sb r k c, exists s,
+  run_req sb k r c = run_sched sb s c /\ Forall (fun e => sev_req e = r) s.
+Proof.
+  intros sb r k; induction k as [|k IH]; intro c; cbn [run_req].
+  - exists []; split; [reflexivity | constructor].
+  - destruct (IH (poll_round sb r c)) as [s [E F]].
+    exists (map (SPoll r) (seq 0 (length (q_tasks (get_req r (c_w c))))) ++ s). split.
+    + rewrite run_sched_app, E. unfold poll_round. now rewrite poll_range_sched.
+    + apply Forall_app; split; [apply Forall_map_req; reflexivity | exact F].
+Qed.
+
+Lemma fire_all_sched : forall sb r n c, q_started (get_req r (c_w c)) = true ->
+  fire_all r n c = run_sched sb (map (SFire r) (seq 0 n)) c /\
+  q_started (get_req r (c_w (fire_all r n c))) = true.
+Proof.
+  intros sb r n c Hs; induction n as [|n [IH1 IH2]]; [split; [reflexivity | exact Hs]|].
+  cbn [fire_all]. rewrite seq_S, map_app, run_sched_app, <- IH1. cbn [map run_sched fold_left step Nat.add].
+  rewrite IH2. split; [reflexivity|]. unfold upd_req; cbn [c_w with_w]. rewrite get_set_same. cbn. exact IH2.
+Qed.
+
+Lemma apply_coarse_sched : forall sb a c, coarse_req a <> 0 -> exists s,
+  apply_coarse sb a c = run_sched sb s c /\ Forall (fun e => sev_req e = coarse_req a) s.
+Proof.
+  intros sb [r|r g|r|r] c Hr; cbn [apply_coarse coarse_req] in *.
+  - destruct (q_started (get_req r (c_w c))); [exists []; split; [reflexivity | constructor]|].
+    exists [SStart r; SPoll r 0]; split; [reflexivity | repeat constructor].
+  - destruct (q_started (get_req r (c_w c))) eqn:Es; cbn [andb]; [|exists []; split; [reflexivity | constructor]].
+    destruct (Nat.ltb g (q_ngates (get_req r (c_w c))) && negb (existsb (Nat.eqb g) (q_fired (get_req r (c_w c))))).
+    + exists [SFire r g]; split; [cbn; now rewrite Es | repeat constructor].
+    + exists []; split; [reflexivity | constructor].
+  - destruct (q_started (get_req r (c_w c)) && negb (q_dropped (get_req r (c_w c)))).
+    + apply run_req_sched.
+    + exists []; split; [reflexivity | constructor].
+  - destruct (q_started (get_req r (c_w c))) eqn:Es; cbn [andb]; [|exists []; split; [reflexivity | constructor]].
+    destruct (negb (q_dropped (get_req r (c_w c)))); [|exists []; split; [reflexivity | constructor]].
+    destruct (fire_all_sched sb r (q_ngates (get_req r (c_w c))) c Es) as [E1 E2].
+    set (c1 := fire_all r (q_ngates (get_req r (c_w c))) c) in *.
+    set (c2 := upd_req r (add_fired FINAL_GATE) c1).
+    destruct (run_req_sched sb r (rounds_for r c2) c2) as [s2 [E3 F3]].
+    exists (map (SFire r) (seq 0 (q_ngates (get_req r (c_w c)))) ++ [SFire r FINAL_GATE] ++ s2). split.
+    + rewrite !run_sched_app, <- E1. cbn [run_sched fold_left step]. fold c1. rewrite E2. exact E3.
+    + apply Forall_app; split; [apply Forall_map_req; reflexivity|].
+      apply Forall_app; split; [repeat constructor | exact F3].
+Qed.
+
+Definition run_actions (sb : bool) (acts : list coarse) (c : cfg) : cfg :=
+  fold_left (fun c a => apply_coarse sb a c) acts c.
+
+Lemma run_actions_sched : forall sb acts c, Forall (fun a => coarse_req a <> 0) acts ->
+  exists s, run_actions sb acts c = run_sched sb s c.
+Proof.
+  intros sb acts; induction acts as [|a acts IH]; intros c F; cbn [run_actions fold_left].
+  - exists []; reflexivity.
+  - inversion F as [|? ? Ha Fa]; subst.
+    destruct (apply_coarse_sched sb a c Ha) as [s1 [E1 _]].
+    destruct (IH (apply_coarse sb a c) Fa) as [s2 E2].
+    exists (s1 ++ s2). unfold run_actions in *. now rewrite run_sched_app, <- E1, E2.
+Qed.
+
+(** what [run_C20] computes for a harness case is an instance of the theorems: every probe it
+    logs for request r saw an owner of r *)
+Theorem harness_run_isolated : forall sb views acts r e,
+  Forall (fun a => coarse_req a <> 0) acts -> r <> 0 ->
+  In e (q_log (get_req r (c_w (run_actions sb acts (init_world (harness_progs views)))))) ->
+  ev_owner e = r \/ ev_owner e = 0.
+Proof.
+  intros sb views acts r e F Hr Hin.
+  destruct (run_actions_sched sb acts (init_world (harness_progs views)) F) as [s E].
+  rewrite E in Hin. eapply scoped_isolation; eauto. apply harness_progs_scoped.
+Qed.
+
+From LV Require Import Base.Sexp Reactive.AmbientRun.
+
+Lemma fold_pair_fst : forall (A B X : Type) (f : A -> X -> A) (g : A * B -> X -> B) l a b,
+  fst (fold_left (fun st x => (f (fst st) x, g st x)) l (a, b)) = fold_left f l a.
+Proof. intros A B X f g l; induction l as [|x l IH]; intros a b; cbn [fold_left fst]; [reflexivity | apply IH]. Qed.
+
+Lemma run_coarse_fst : forall sb views acts,
+  fst (run_coarse sb views acts) = run_actions sb acts (init_world (harness_progs views)).
+Proof.
+  intros sb views acts. unfold run_coarse, run_actions.
+  apply (fold_pair_fst cfg (list sexp) coarse (fun c a => apply_coarse sb a c)
+           (fun st a => snd st ++ [amb_view sb (length views) (fst st)])).
+Qed.
